@@ -23,6 +23,8 @@ def run(ctx):
     S.t7_raw_key_normal_form(ctx)
     S.w_insertion_discipline(ctx)
     S.w3_shared_logic(ctx)
+    S.w4_pack_iteration(ctx)
+    ctx.floor("W4", 1)
     from ..engines import labelkind as LK
     LK.k8_strategy_parent_pairing(ctx, modules=("specification_extrator", "rule_db.base"))
     ctx.floor("K8", 3)
